@@ -256,6 +256,8 @@ class World:
             if f.id in self.prims:
                 return self.prims[f.id](eng, args, st, e)
             return self.apply_spec(eng, self.specs[f.id], args, st, e)
+        if isinstance(f, ast.Name) and f.id == 'cast' and len(e.args) == 2 and 'cast' not in st.env:
+            return eng.ev(e.args[1], st)       # typing.cast(T, x) is x; T is a type expression, not evaluated
         if isinstance(f, ast.Attribute):
             base = eng.ev(f.value, st)
             return self.call_attr(eng, base, f.attr, e, st, f.value)
@@ -568,10 +570,13 @@ class World:
         return z3.IntToStr(term)
 
     def isinstance(self, eng, v, cls, st, node):
-        classes = list(cls.obj) if isinstance(cls, VPy) and isinstance(cls.obj, tuple) and not (cls.obj and cls.obj[0] == 'class') else [cls]
+        classes = list(cls.obj) if isinstance(cls, VPy) and isinstance(cls.obj, tuple) and not (cls.obj and cls.obj[0] in ('class', 'builtin')) else [cls]
         res = []
         for c in classes:
             c = c if isinstance(c, (VPy, V)) else VPy(c)
+            if isinstance(c, VPy) and isinstance(c.obj, tuple) and len(c.obj) == 2 and c.obj[0] == 'builtin':
+                import builtins as _b
+                c = VPy(getattr(_b, c.obj[1]))
             ok = None
             for r in self.isinstance_rules:
                 ok = r(eng, v, c, st, node)
